@@ -2169,11 +2169,15 @@ def entity_roundtrip(ctx, rng):
             continue
         ctx.evaluations += 1
         ctx.nontrivial.add(("fixture", fx.name))
-        a = Accessories.from_list(data)
-        s1 = a.serialize()
-        b = Accessories.from_list(json.loads(json.dumps(s1)))
-        s2 = b.serialize()
         case = {"stream": "entity", "fixture": fx.name}
+        try:
+            a = Accessories.from_list(data)
+            s1 = a.serialize()
+            b = Accessories.from_list(json.loads(json.dumps(s1)))
+            s2 = b.serialize()
+        except Exception as e:  # noqa: BLE001 - a database the library's own test suite loads: serialising / loading it again must not raise
+            ctx.violation(f"entity/raised/{type(e).__name__}", f"{fx.name}: serialize -> from_list -> serialize raised {type(e).__name__}: {str(e)[:200]}", case)
+            continue
         if proj(s1) != proj(s2):
             ctx.violation("entity/not-stable", f"{fx.name}: the listed fields differ after serialize -> from_list -> serialize", case)
         for acc_a, acc_b in zip(a, b):
@@ -2187,11 +2191,14 @@ def entity_roundtrip(ctx, rng):
                     if "pr" in ca.perms and ca._value is not None and ca._value != cb._value:
                         ctx.violation("entity/char-value", f"{fx.name}: characteristic {ca.iid} value {ca._value!r} -> {cb._value!r}", case)
         # through the cache entry (config/state numbers, broadcast key)
-        mem = CharacteristicCacheMemory()
-        mem.async_create_or_update_map("id", 7, s1, "ab" * 32, 42)
-        e = json.loads(json.dumps(mem.get_map("id")))
-        if (e["config_num"], e["state_num"], e["broadcast_key"]) != (7, 42, "ab" * 32) or proj(Accessories.from_list(e["accessories"]).serialize()) != proj(s1):
-            ctx.violation("entity/cache-entry", f"{fx.name}: cache entry does not round-trip", case)
+        try:
+            mem = CharacteristicCacheMemory()
+            mem.async_create_or_update_map("id", 7, s1, "ab" * 32, 42)
+            e = json.loads(json.dumps(mem.get_map("id")))
+            if (e["config_num"], e["state_num"], e["broadcast_key"]) != (7, 42, "ab" * 32) or proj(Accessories.from_list(e["accessories"]).serialize()) != proj(s1):
+                ctx.violation("entity/cache-entry", f"{fx.name}: cache entry does not round-trip", case)
+        except Exception as e:  # noqa: BLE001
+            ctx.violation(f"entity/cache-entry-raised/{type(e).__name__}", f"{fx.name}: the cache entry round trip raised {type(e).__name__}: {str(e)[:200]}", case)
         ctx.dist["entity:fixture"] += 1
 
 
@@ -2283,9 +2290,14 @@ def cache_prefixes(ctx, rng, tmpdir):
         done += 1
         if loc.exists():
             loc.unlink()
-        cf = CharacteristicCacheFile(loc)
-        cf.async_create_or_update_map("aa:bb", 3, Accessories.from_list(data).serialize(), "cd" * 32, 9)
-        full = loc.read_bytes()
+        try:
+            cf = CharacteristicCacheFile(loc)
+            cf.async_create_or_update_map("aa:bb", 3, Accessories.from_list(data).serialize(), "cd" * 32, 9)
+            full = loc.read_bytes()
+        except Exception as e:  # noqa: BLE001 - writing a database of the library's own fixtures through to the cache must not raise
+            ctx.violation(f"cache/write-through-raised/{type(e).__name__}", f"{fx.name}: writing the database through to the cache file raised {type(e).__name__}: {str(e)[:200]}",
+                          {"stream": "cache", "fixture": fx.name})
+            continue
         # restart with the complete file
         ctx.evaluations += 1
         if CharacteristicCacheFile(loc).get_map("aa:bb") != json.loads(full)["pairings"]["aa:bb"]:
